@@ -512,13 +512,25 @@ pub fn cam_access(c: &CamAccess, st: &mut Stats) -> Result<(), String> {
 
 // ---------------------------------------------------------------------------------------------
 
+/// 32-bit BAR addresses: arbitrary, zero, and values whose writable bits are (nearly) all ones --
+/// the register then barely changes when the sizing pattern is written.
+fn addr32() -> impl Strategy<Value = u32> {
+    prop_oneof![
+        6 => any::<u32>(),
+        1 => Just(0u32),
+        2 => Just(u32::MAX),
+        2 => (0u32..16).prop_map(|l| u32::MAX << l),
+        2 => (0u32..32, 0u32..32).prop_map(|(a, b)| u32::MAX & !(1 << a) & !(1 << b)),
+    ]
+}
+
 fn bar_strategy() -> impl Strategy<Value = Bar> {
     prop_oneof![
         3 => Just(Bar::None),
-        2 => (2u8..32, any::<bool>(), any::<u32>()).prop_map(|(size_log2, decode16, addr)| Bar::Io { size_log2, decode16, addr }),
-        3 => (4u8..32, any::<bool>(), prop::bool::weighted(0.2), any::<u32>()).prop_map(|(size_log2, prefetch, below1m, addr)| Bar::Mem32 { size_log2, prefetch, below1m, addr }),
-        4 => (4u8..64, any::<bool>(), prop_oneof![any::<u64>(), any::<u32>().prop_map(|x| x as u64), (0u64..256, any::<u32>()).prop_map(|(h, l)| h << 32 | l as u64), (0u32..32, 0u32..32).prop_map(|(a, b)| (1u64 << (32 + a)) | (1u64 << b))]).prop_map(|(size_log2, prefetch, addr)| Bar::Mem64 { size_log2, prefetch, addr }),
-        1 => (4u8..32, any::<u32>()).prop_map(|(size_log2, addr)| Bar::Reserved { size_log2, addr }),
+        2 => (2u8..32, any::<bool>(), addr32()).prop_map(|(size_log2, decode16, addr)| Bar::Io { size_log2, decode16, addr }),
+        3 => (4u8..32, any::<bool>(), prop::bool::weighted(0.2), addr32()).prop_map(|(size_log2, prefetch, below1m, addr)| Bar::Mem32 { size_log2, prefetch, below1m, addr }),
+        4 => (4u8..64, any::<bool>(), prop_oneof![any::<u64>(), Just(u64::MAX), (0u32..64).prop_map(|l| u64::MAX << l), any::<u32>().prop_map(|x| x as u64), (0u64..256, any::<u32>()).prop_map(|(h, l)| h << 32 | l as u64), (0u32..32, 0u32..32).prop_map(|(a, b)| (1u64 << (32 + a)) | (1u64 << b))]).prop_map(|(size_log2, prefetch, addr)| Bar::Mem64 { size_log2, prefetch, addr }),
+        1 => (4u8..32, addr32()).prop_map(|(size_log2, addr)| Bar::Reserved { size_log2, addr }),
     ]
 }
 
@@ -596,7 +608,7 @@ pub fn run(ctx: &Ctx) -> Report {
         failure,
         info: PartInfo {
             level: "exploration",
-            rule: "BARs: proptest over BAR sets (every slot: unimplemented / I/O 32- and 16-bit decode / 32-bit / below-1-MiB / 64-bit with sizes 2^4..2^63 / reserved type / 64-bit in slot 5; non-zero addresses; prefetchable) x initial command values, through ConfigurationAccess and MmioCam (CAM and ECAM): bar_info()/bars() equal the reference function's truth, configuration space is identical afterwards (also on error returns), sizing writes only with decoding off. cam_offset: exhaustive over 256x32x8x64 tuples x {CAM,ECAM} against the independent formula, range, alignment, injectivity (bitmap); MmioCam read/write = exactly one 32-bit access at base+offset. Bus populations and well-formed capability lists: enumerate_bus / capabilities yield exactly the model's content in order. Non-trivial = BAR set with a 64-bit BAR with non-zero upper address and decoding enabled on entry; bus with >=2 functions and >=2 capabilities; each exhaustive cam_offset sweep. distinct = (command, access mechanism, per-slot kind/size) / (bus, function set, capability count).",
+            rule: "BARs: proptest over BAR sets (every slot: unimplemented / I/O 32- and 16-bit decode / 32-bit / below-1-MiB / 64-bit with sizes 2^4..2^63 / reserved type / 64-bit in slot 5; arbitrary, zero and (nearly) all-ones addresses; prefetchable) x initial command values, through ConfigurationAccess and MmioCam (CAM and ECAM): bar_info()/bars() equal the reference function's truth, configuration space is identical afterwards (also on error returns), sizing writes only with decoding off. cam_offset: exhaustive over 256x32x8x64 tuples x {CAM,ECAM} against the independent formula, range, alignment, injectivity (bitmap); MmioCam read/write = exactly one 32-bit access at base+offset. Bus populations and well-formed capability lists: enumerate_bus / capabilities yield exactly the model's content in order. Non-trivial = BAR set with a 64-bit BAR with non-zero upper address and decoding enabled on entry; bus with >=2 functions and >=2 capabilities; each exhaustive cam_offset sweep. distinct = (command, access mechanism, per-slot kind/size) / (bus, function set, capability count).",
             assumptions: vec!["reserved command bits read as zero in the model, as in hardware (Command::from_bits_truncate drops them)".into(), "bar_info is only called on slots that start a BAR (the upper half of a 64-bit BAR is not a BAR)".into()],
             exhaustive: false,
             extra: json!({"cam_offset_exhaustive": true}),
